@@ -605,7 +605,134 @@ def run_http(ctx, n):
     ctx.run_hypothesis(http_scenarios(), check, n)
 
 
+# ---------------------------------------------------------------------------
+# command-line steps: a failed store must never end in a success status with
+# an incomplete / different result
+# ---------------------------------------------------------------------------
+CLI_STEPS = ["generate_info", "scales_info", "convert", "compute"]
+
+
+@st.composite
+def cli_scenarios(draw):
+    return {"cli_step": draw(st.sampled_from(CLI_STEPS)),
+            "stored": draw(st.sampled_from(["uint8", "uint16", "float32",
+                                            "float64", "int16"])),
+            "shape": [draw(st.integers(1, 5)) for _ in range(3)],
+            "flat": draw(st.booleans()),
+            "seed": draw(st.integers(0, 10 ** 6))}
+
+
+def check_cli(ctx, sc):
+    """Runs the documented step-by-step workflow up to the chosen step
+    without faults, then injects every errno at every I/O call of that step.
+    If the command then reports success, the destination must be what the
+    fault-free run produces."""
+    from neuroglancer_scripts.scripts import (compute_scales,
+                                              generate_scales_info,
+                                              volume_to_precomputed)
+    from vlib import nifti
+    root = ctx.tmpdir("cli")
+    try:
+        rng = np.random.default_rng(sc["seed"])
+        dt = np.dtype(sc["stored"])
+        vol = (rng.integers(0, 100, size=sc["shape"])).astype(dt)
+        src = os.path.join(root, "in")
+        os.makedirs(src)
+        path = os.path.join(src, "vol.nii")
+        nifti.write_nifti(path, np.asfortranarray(vol), np.eye(4))
+        base = os.path.join(root, "base")
+        os.makedirs(base)
+        common = ["--no-gzip"] + (["--flat"] if sc["flat"] else [])
+
+        def step(name, dest):
+            if name == "generate_info":
+                return volume_to_precomputed.main(
+                    ["volume-to-precomputed", path, dest, "--generate-info"])
+            if name == "scales_info":
+                return generate_scales_info.main(
+                    ["generate-scales-info",
+                     os.path.join(dest, "info_fullres.json"), dest,
+                     "--target-chunk-size", "2"])
+            if name == "convert":
+                return volume_to_precomputed.main(
+                    ["volume-to-precomputed", path, dest] + common)
+            return compute_scales.main(["compute-scales", dest] + common)
+
+        def run(name, dest):
+            try:
+                with np.errstate(all="ignore"):
+                    rc = step(name, dest)
+                return rc or 0, None
+            except SystemExit as exc:
+                return exc.code if isinstance(exc.code, int) else 1, None
+            except Exception as exc:         # noqa
+                return 1, exc
+        k_step = CLI_STEPS.index(sc["cli_step"])
+        for name in CLI_STEPS[:k_step]:
+            rc, exc = run(name, base)
+            if rc not in (0, 4):
+                raise HarnessError("fault-free step %s failed: %r %r" % (
+                    name, rc, exc))
+        name = sc["cli_step"]
+        good = os.path.join(root, "good")
+        shutil.copytree(base, good)
+        with faultfs.Layer([good], "trace") as L:
+            rc, exc = run(name, good)
+        if rc not in (0, 4):
+            raise HarnessError("fault-free step %s failed: %r %r" % (
+                name, rc, exc))
+        def products(tree):
+            # transform.json is a by-product that --generate-info is not asked
+            # for (its help text only promises info_fullres.json) and whose
+            # write failure the tool deliberately only logs
+            return {k: v for k, v in tree.items() if k != "transform.json"}
+        want = products(ds.tree_snapshot(good))
+        calls = L.calls
+        stride = max(1, len(calls) // 60)
+        n = 0
+        for k, (ckind, cpath) in enumerate(calls):
+            if k % stride:
+                continue
+            for ename, eno in errs_for(ckind)[:2 if stride > 1 else 4]:
+                w = os.path.join(root, "w")
+                if os.path.exists(w):
+                    shutil.rmtree(w)
+                shutil.copytree(base, w)
+                with faultfs.Layer([w], "fail", k, eno) as L2:
+                    rc, exc = run(name, w)
+                if not L2.fired:
+                    continue
+                n += 1
+                if rc in (0, 4):
+                    got = products(ds.tree_snapshot(w))
+                    if got != want:
+                        diff = sorted(set(want.items()) ^ set(got.items()))
+                        ctx.fail("%s injected at call %d/%d (%s %s) of `%s`: "
+                                 "the command reported success (status %r) "
+                                 "but the destination differs from a fault-"
+                                 "free run: %s [stored %s shape %s]" % (
+                                     ename, k, len(calls), ckind,
+                                     os.path.relpath(cpath, good), name, rc,
+                                     [d_[0] for d_ in diff[:4]],
+                                     sc["stored"], sc["shape"]))
+        return n
+    finally:
+        ctx.rmtree(root)
+
+
+def run_cli(ctx, n):
+    def check(ctx, sc):
+        k = check_cli(ctx, sc)
+        ctx.count("injections", k)
+        ctx.evaluations += k
+        ctx.record(sc, k > 1, ["step." + sc["cli_step"],
+                               "stored." + sc["stored"]])
+    ctx.run_hypothesis(cli_scenarios(), check, n)
+
+
 def replay(ctx, case):
+    if "cli_step" in case:
+        return check_cli(ctx, case)
     if "op" in case:
         check_scenario(ctx, case)
     else:
@@ -617,5 +744,7 @@ SUBS = [
     Sub("fs_large", run_large, replay, quick=42, thorough=1500,
         min_per_shard=2),
     Sub("http_faults", run_http, replay, quick=40, thorough=2000,
+        min_per_shard=4),
+    Sub("cli_faults", run_cli, replay, quick=40, thorough=1500,
         min_per_shard=4),
 ]
